@@ -235,3 +235,15 @@ package rpc
 //@   ensures  states_wide: forall k int :: 0 <= k && k < len(now.tracked) ==> a[P(now, syncSchema, k)] == now.mTime[P(now, syncSchema, k)]
 //@   ensures  qtick_wide:  q == now.queueTick
 //@   ensures  mtick_wide:  m == now.machTick
+
+// The tracked states follow the order of the source's state names, so the pushed
+// indexes grow along every update (the shape the codec lemmas assume) and both
+// sides address the same state with the same position.
+//@ func (t *sourceTracer) calcTrackedStates(states am.S)
+//@   props C10
+//@   requires nn:    t.s != nil
+//@   assigns  t.trackedStates, t.trackedStateIdxs
+//@   ensures  set:   forall x string :: mem(t.trackedStates, x) <==> mem(states, x) && (isnil(t.s.syncAllowedStates) || mem(t.s.syncAllowedStates, x)) && !mem(t.s.syncSkippedStates, x)
+//@   ensures  idx:   len(t.trackedStateIdxs) == len(t.trackedStates) && (forall i int :: 0 <= i && i < len(t.trackedStates) ==> t.trackedStateIdxs[i] == index(states, t.trackedStates[i]))
+//@   ensures  order: nodup(states) ==> (forall a, b int :: 0 <= a && a < b && b < len(t.trackedStateIdxs) ==> t.trackedStateIdxs[a] < t.trackedStateIdxs[b])
+//@   loop 1 invariant idx: len(t.trackedStateIdxs) == len(t.trackedStates) && (forall j int :: 0 <= j && j < i ==> t.trackedStateIdxs[j] == index(states, t.trackedStates[j]))
